@@ -59,4 +59,15 @@ def isPrefixTable (t : Table) : Bool := t.prefixRes
 def prefixConvention (t : Table) : Bool :=
   t.cells.all fun c => prefixName c.caseName == some c.retVal
 
+
+/-- Parser-side convention for prefix types: whatever variant a parser assigns to an OutputPrefixType
+    re-serialises to a prefix type with the *same output prefix bytes*: the same type, or — LEGACY and
+    CRUNCHY both being `0x00 ‖ id` — one of that pair.  (Key types without a LEGACY variant read LEGACY
+    keys as CRUNCHY; reading them as TINK would change the prefix of every ciphertext.) -/
+def samePrefixBytes (a b : Nat) : Bool := a == b || (a == 2 && b == 4) || (a == 4 && b == 2)
+
+def parserPrefixConsistent (f g : Table) : Bool :=
+  !f.prefixRes || g.cells.all fun c => match lookup f c.retVal with
+    | some back => samePrefixBytes c.caseVal back
+    | none => false
 end TinkVerif.Gen.EnumTables
